@@ -91,6 +91,17 @@ Definition headroom_f64 (d : Z) (tc : nat) : option Z :=
 (* the same on exact integers: truncation toward zero *)
 Definition headroom_quot (d : Z) (tc : nat) : option Z := Some (Z.quot d (Z.of_nat tc)).
 
+(* The same expression for an UNSIGNED weight type (W = u64), where `max_part_weight - pw`
+   is computed in the weight type before the conversion: a debug build panics when the part is
+   above the cap, a release build wraps around (known finding, see docs/C05.md). *)
+Definition headroom_u64_debug (d : Z) (tc : nat) : option Z :=
+  if d <? 0 then None else headroom_f64 d tc.
+Definition headroom_u64_release (d : Z) (tc : nat) : option Z :=
+  match trunc_Z (f64_div (f64_of_Z (d mod 2 ^ 64)) (f64_of_Z (Z.of_nat tc))) with
+  | Some z => if (0 <=? z) && (z <? 2 ^ 64) then Some z else None
+  | None => None
+  end.
+
 (* ------------------------------------------------ recorded access events *)
 
 (* kinds of src/verif.rs minus 10 *)
